@@ -18,20 +18,20 @@ func (fund *ProposalFund) Print() {
 }
 
 func (pf *ProposalFundStore) DeleteAllFunds(id ProposalID) error {
-	e := error(nil)
+	// collect the funders first: deleting while the scan is running ends it early
+	funders := make([]keys.Address, 0)
 	pf.GetFundsForProposalID(id, func(proposalID ProposalID, fundingAddr keys.Address, amt *balance.Amount) ProposalFund {
-		ok, err := pf.DeleteFunds(proposalID, fundingAddr)
-		if err != nil {
-			e = err
-			return ProposalFund{}
-		}
-		if !ok {
-			e = ErrDeductFunding
-		}
+		funders = append(funders, fundingAddr)
 		return ProposalFund{}
 	})
-	if e != nil {
-		return e
+	for _, funder := range funders {
+		ok, err := pf.DeleteFunds(id, funder)
+		if err != nil {
+			return err
+		}
+		if !ok {
+			return ErrDeductFunding
+		}
 	}
 
 	// set total funds record to 0
